@@ -219,6 +219,15 @@ mut("neutral-c17-tempfile-rename-writer", CLI, """            with open(self.out
             with open(tmp_name, "w", encoding="utf-8") as f:
                 f.write(output)
             os.replace(tmp_name, self.output_file)""", ["C17", "C16"], kind="neutral")
+# ---- C18 ----------------------------------------------------------------------------------------------
+mut("c18-path-tokens-reversed", SC, '        paths: List[str] = ["".join(p[1:]) for p in paths]', '        paths: List[str] = ["".join(p[1:-1][::-1] + p[-1:]) for p in paths]', ["C18"])
+mut("c18-list-dict-token-confused", SC, "                elif cls is DList:\n                    token = 'L'\n                elif cls is DDict:\n                    token = 'D'", "                elif cls is DList:\n                    token = 'L'\n                elif cls is DDict:\n                    token = 'L'", ["C18"])
+mut("c18-attrs-post-init-name-typo", SC, "        ClassType.Attrs: '__attrs_post_init__',", "        ClassType.Attrs: '__attr_post_init__',", ["C18"])
+mut("c18-path-uses-raw-field-name", MB, "        return [self.convert_field_name(name) + ('#' + '.'.join(path) if path else '')", "        return [name + ('#' + '.'.join(path) if path else '')", ["C18"])
+mut("c18-optional-none-crash-reintroduced", SC, "    elif token == 'O':\n        if value is None:\n            return value\n", "    elif token == 'O':\n", ["C18"])
+mut("c18-dict-values-not-converted", SC, "            key: _process_string_field_value(path, item, current_type=t, optional=optional)", "            key: item", ["C18"])
+mut("c18-only-first-list-element", SC, "        return [\n            _process_string_field_value(path, item, current_type=t, optional=optional)\n            for item in value\n        ]", "        return [\n            _process_string_field_value(path, item, current_type=t, optional=optional) if i == 0 else item\n            for i, item in enumerate(value)\n        ]", ["C18"])
+mut("c18-dataclass-decorator-dropped-for-nested", MD, "        imports, kwargs = super().convert_strings_kwargs\n        imports.append(('json_to_models.models', ['ClassType']))\n        kwargs[\"class_type\"] = 'ClassType.Dataclass'", "        imports, kwargs = super().convert_strings_kwargs\n        imports.append(('json_to_models.models', ['ClassType']))\n        if len(self.model.type) > 2:\n            kwargs[\"class_type\"] = 'ClassType.Dataclass'", ["C18"])
 # ---- neutral (behaviour preserving) -------------------------------------------------------------------
 mut("neutral-rename-local", G, "        fields_sets = [self._convert(data) for data in data_variants]\n        fields = self.merge_field_sets(fields_sets)",
     "        variants = [self._convert(data) for data in data_variants]\n        fields = self.merge_field_sets(variants)", ["C01", "C02", "C05"], kind="neutral")
